@@ -88,8 +88,20 @@ def check_kw_identity(ctx, rep, rule, prefixes):
                 if k.arg and isinstance(k.value, ast.Name) and k.value.id in fn.params:
                     n += 1
                     c = '%s(%s=%s)' % (norm(node.func), k.arg, k.value.id)
+                    # a crossing needs both names on the callee's side: `lprefix=rprefix` to a callee that has an rprefix of
+                    # its own; `sort(table, key=value)` merely names the argument
+                    callee_params = set()
+                    for r in refs:
+                        if r.kind == 'func':
+                            callee_params |= set(r.target.params)
+                        elif r.kind == 'class':
+                            g = ctx.res.lookup_method(r.target, '__init__')
+                            if g is not None:
+                                callee_params |= set(g.params)
                     if k.value.id == k.arg:
                         rep.held(rule, fn, c, '', node)
+                    elif k.value.id not in callee_params:
+                        rep.held(rule, fn, c, 'the callee has no parameter `%s`: a plain renaming' % k.value.id, node)
                     else:
                         rep.violated(rule, fn, c,
                                      'the caller\'s `%s` is passed as `%s` to %s: the two arguments are crossed'
